@@ -77,12 +77,12 @@ run = Fn(F, ["impl Router", "run"], extra_params="Tracked(w): Tracked<&mut W>",
                "exists|n: int| 0 <= n <= final(w).delivered.len() && final(w).calls == routed(final(w).delivered.subrange(0, n), final(w).wakeup)", ["C07"]),
     ],
     loops={
-        0: Loop(invariants=OUTER),
+        0: Loop(invariants=OUTER, desugar_while_let=True),     # D27 only if the loop is (or becomes) a `while let`
         1: Loop(invariants=INNER, iter_name="it"),
     },
     hints=[
         Hint("body:start", "let ghost wk = w.wakeup;\nproof { assert(w.delivered.subrange(0, w.delivered.len() as int) =~= w.delivered); }"),
-        Hint("loop:0:start", "let ghost d0 = w.delivered;\nlet ghost live0 = w.live;\nlet ghost c0 = w.credit;"),
+        Hint("loop:0:head", "let ghost d0 = w.delivered;\nlet ghost live0 = w.live;\nlet ghost c0 = w.credit;"),
         Hint("loop:1:before",
              "let ghost rs = results@;\n"
              "proof {\n"
